@@ -125,6 +125,11 @@ impl Array8 {
         self.estimator.set_hip_accum(value);
     }
 
+    /// Check whether the estimator is in out-of-order mode (HIP accumulator invalid)
+    pub(super) fn is_out_of_order(&self) -> bool {
+        self.estimator.is_out_of_order()
+    }
+
     /// Check if the sketch is empty (all slots are zero)
     pub fn is_empty(&self) -> bool {
         self.num_zeros == (1 << self.lg_config_k)
